@@ -718,11 +718,14 @@ pub fn compress(values: &[FixWord], max_size: u8) -> (Vec<FixWord>, HashMap<FixW
     //
     // Invariant: delta<lower is never a solution.
     // Because delta must be non-negative, we initialize it to zero.
-    let mut lower = FixWord::ZERO;
+    //
+    // Deltas are differences of two fix words and so need more than 32 bits in general.
+    let mut lower = 0_i64;
+    let diff = |a: FixWord, b: FixWord| -> i64 { i64::from(a.0) - i64::from(b.0) };
     // Invariant: delta=upper is always solution.
     // To initialize upper and begin the search we construct a solution that always works: a single
     // interval encompassing the entire slice and the largest delta possible.
-    let max_delta = *dedup_values.last().unwrap() - *dedup_values.first().unwrap();
+    let max_delta = diff(*dedup_values.last().unwrap(), *dedup_values.first().unwrap());
     let mut upper = max_delta;
     let mut solution = vec![dedup_values.len()];
 
@@ -736,12 +739,12 @@ pub fn compress(values: &[FixWord], max_size: u8) -> (Vec<FixWord>, HashMap<FixW
         let mut interval_start = *dedup_values.first().unwrap();
         // The smallest delta such that the candidate solution will be the same.
         // This is the maximum of all gaps that don't start a new interval.
-        let mut delta_lower = FixWord::ZERO;
+        let mut delta_lower = 0_i64;
         // The largest delta such that the candidate solution will be different.
         // This is the minimum of all gaps that start a new interval.
         let mut delta_upper = max_delta;
         for (i, &v) in dedup_values.iter().enumerate() {
-            let gap = v - interval_start;
+            let gap = diff(v, interval_start);
             if gap > delta {
                 // We need to start a new interval
                 if gap < delta_upper {
@@ -787,8 +790,14 @@ pub fn compress(values: &[FixWord], max_size: u8) -> (Vec<FixWord>, HashMap<FixW
                 .expect("the `result` array contains at least 1 element so this is never 0");
             value_to_index.insert(v, index);
         }
-        let replacement = (*interval.last().unwrap() + *interval.first().unwrap()) / 2;
-        result.push(replacement);
+        let replacement = (i64::from(interval.last().unwrap().0)
+            + i64::from(interval.first().unwrap().0))
+            / 2;
+        result.push(FixWord(
+            replacement
+                .try_into()
+                .expect("the mean of two 32-bit integers is a 32-bit integer"),
+        ));
     }
 
     (result, value_to_index)
